@@ -940,6 +940,13 @@ func (s *Server) RemoteHandshake(
 
 	// accept the client
 	s.rpcClient.Store(client)
+	// the connect callback runs in its own goroutine and may come after this
+	// call; HandshakeDone requires ClientConnected
+	if s.Mach.Not1(ssS.ClientConnected) {
+		s.Mach.Add1(ssS.ClientConnected, Pass(&AClientConnected{
+			Client: client,
+		}))
+	}
 	s.Mach.Add1(ssS.HandshakeDone, Pass(&A{
 		Id: *id,
 	}))
